@@ -46,6 +46,8 @@ import (
 //   loop() (its chunk never shows up in a sweep); the driver checks with the model that the
 //   buffer was indeed full at some moment in between.
 
+var errC18Request = fmt.Errorf("request could not be sent")
+
 func c18PeerName(p uint64) string {
 	if p == 0 {
 		return ""
@@ -166,11 +168,13 @@ func c18RunPeer(header []string, ops [][]string) []string {
 	type ans struct {
 		done, susp bool
 		mask       uint64
+		reqerr     bool // RequestChunks returns an error in this run
 	}
 	script := make([]ans, nruns)
 	for i := 0; i < nruns; i++ {
 		m, _ := strconv.ParseUint(header[3+3*i+2], 10, 64)
-		script[i] = ans{header[3+3*i] == "1", header[3+3*i+1] == "1", m}
+		sv, _ := strconv.Atoi(header[3+3*i+1]) // bit 0: Suspend() answer, bit 1: RequestChunks fails
+		script[i] = ans{header[3+3*i] == "1", sv&1 == 1, m, sv&2 != 0}
 	}
 	var mu sync.Mutex
 	var obs []string
@@ -222,6 +226,10 @@ func c18RunPeer(header []string, ops [][]string) []string {
 			defer mu.Unlock()
 			obs = append(obs, fmt.Sprintf("R%d:%d:%d", maxChunks, maxNum, maxSize))
 			vu.Stat("peer_request")
+			if cur().reqerr {
+				vu.Stat("peer_request_returns_error")
+				return errC18Request
+			}
 			return nil
 		},
 	})
@@ -275,11 +283,13 @@ func c18RunTickerOnce(header []string, ops [][]string) []string {
 	type ans struct {
 		done, susp bool
 		mask       uint64
+		reqerr     bool // RequestChunks returns an error in this run
 	}
 	script := make([]ans, nruns)
 	for i := 0; i < nruns; i++ {
 		m, _ := strconv.ParseUint(header[3+3*i+2], 10, 64)
-		script[i] = ans{header[3+3*i] == "1", header[3+3*i+1] == "1", m}
+		sv, _ := strconv.Atoi(header[3+3*i+1]) // bit 0: Suspend() answer, bit 1: RequestChunks fails
+		script[i] = ans{header[3+3*i] == "1", sv&1 == 1, m, sv&2 != 0}
 	}
 	var mu sync.Mutex
 	var obs []string
@@ -329,6 +339,10 @@ func c18RunTickerOnce(header []string, ops [][]string) []string {
 			mu.Lock()
 			defer mu.Unlock()
 			obs = append(obs, fmt.Sprintf("R%d:%d:%d", maxChunks, maxNum, maxSize))
+			if cur().reqerr {
+				vu.Stat("ticker_request_returns_error")
+				return errC18Request
+			}
 			return nil
 		},
 	})
@@ -781,6 +795,9 @@ func c18GenPeer(r *rand.Rand, emit func(...string)) {
 		if r.Intn(4) == 0 {
 			susp = 1
 		}
+		if r.Intn(3) == 0 {
+			susp += 2 // the RequestChunks callback of this run returns an error
+		}
 		var mask uint64
 		switch r.Intn(4) {
 		case 0:
@@ -828,6 +845,9 @@ func c18GenTicker(r *rand.Rand, emit func(...string)) {
 		susp := 0
 		if r.Intn(4) == 0 {
 			susp = 1
+		}
+		if r.Intn(3) == 0 {
+			susp += 2 // the RequestChunks callback of this run returns an error
 		}
 		var mask uint64
 		switch r.Intn(3) {
@@ -883,6 +903,15 @@ func c18Gen(r *rand.Rand, n int, tier string, emit func(...string)) {
 	emit("B", ";", "r", "1", ";", "t", "0", "0", ";", "u", "1", "0")
 	// ... and of the peer leecher without the d.done guard: done at the first run, not done later
 	emit("T", "1", "4", "1", "0", "0", "0", "0", "0", "0", "0", "0", "0", "0", "0", ";", "c", "1", ";", "w", ";", "w")
+	// the request of the first run fails; afterwards the application is suspended and ticks follow
+	{
+		in := []string{"T", "2", "12", "0", "2", "0"}
+		for i := 1; i < 12; i++ {
+			in = append(in, "0", "1", "0")
+		}
+		in = append(in, ";", "c", "1", ";", "w", ";", "w", ";", "w")
+		emit(in...)
+	}
 	// an over-delivering peer: parallelism 2, six chunks while nothing is processed (the buffer
 	// holds 4, two notifications are dropped), then everything is processed and ticks follow
 	{
